@@ -352,15 +352,20 @@ class Prover:
                     return r
         return None
 
-    def prove_eq(self, a, b, _depth=0):
+    CASE_SPLIT_BUDGET_S = 12.0
+
+    def prove_eq(self, a, b, _depth=0, _deadline=None):
         """a == b as exact normal forms; if-then-else atoms with an undecided condition
-        (a guard in the code, merged paths) are split into the two cases."""
+        (a guard in the code, merged paths) are split into the two cases (depth <= 10 and a
+        time budget per top-level call: a failing identity must not cost 2^10 normalisations)."""
         t0 = time.time()
+        if _deadline is None:
+            _deadline = t0 + self.CASE_SPLIT_BUDGET_S
         try:
             ok, d = self.N.equal(a, b)
         except Unsupported as e:
             return False, "field", f"unsupported: {e}", time.time() - t0
-        if not ok and _depth < 10:
+        if not ok and _depth < 10 and time.time() < _deadline:
             N = self.N
             N.lookup(("scan",))       # make sure the path condition has been learnt
             ck = self._undecided_ite(d)
@@ -372,7 +377,7 @@ class Prover:
                         N.known = dict(saved)
                         N.known[ck] = val
                         N.memo.clear()
-                        if not self.prove_eq(a, b, _depth + 1)[0]:
+                        if not self.prove_eq(a, b, _depth + 1, _deadline)[0]:
                             allok = False
                             break
                 finally:
